@@ -360,6 +360,50 @@ func scenarios() []*Scenario {
 		},
 		Observe: func(s any) string { return s.(*dsys).view() },
 	})
+	// (6b') a local removal of a session while a newer copy of its record (written by a node whose clock runs ahead)
+	// is merged, and a retained message is stored at the same time: what the node lists must be what a node fed with the
+	// same remote update and this node's broadcasts lists
+	remoteSession := func() []byte {
+		ev := &api.StateBroadcastEvent{SessionMetadatas: []*api.SessionMetadatas{{SessionID: "s1", ClientID: "c1", Peer: 2, MountPoint: "m", LastAdded: 1_000_000 + 50}}}
+		b, _ := proto.Marshal(ev)
+		return b
+	}()
+	out = append(out, &Scenario{
+		Name: "distributed: sessions.Delete(s1) || MergeRemoteState(newer s1) || topics.Set(m/t,x);sessions.Create(s2)",
+		New: func() any {
+			clockTick.Store(0)
+			d := newDsys()
+			d.st.SessionMetadatas().Create("s1", "c1", 1, nil, "m")
+			return d
+		},
+		Threads: [][]Op{
+			{{"Delete(s1)", func(s any) string { return errs(s.(*dsys).st.SessionMetadatas().Delete("s1")) }}},
+			{{"Merge(newer s1)", func(s any) string { s.(*dsys).st.Distributor().MergeRemoteState(remoteSession, false); return "" }}},
+			{{"Set(m/t,x)", func(s any) string {
+				return errs(s.(*dsys).st.Topics().Set(&packet.Publish{Header: &packet.Header{}, Topic: []byte("m/t"), Payload: []byte("x")}))
+			}},
+				{"Create(s2)", func(s any) string { return errs(s.(*dsys).st.SessionMetadatas().Create("s2", "c2", 1, nil, "m")) }}},
+		},
+		Observe: func(s any) string {
+			d := s.(*dsys)
+			own := d.view() + " retained[" + d.retained() + "]"
+			m := newDsys()
+			m.st.Distributor().NotifyMsg(remoteSession)
+			for {
+				b := d.q.GetBroadcasts(0, 1<<24)
+				if len(b) == 0 {
+					break
+				}
+				for _, x := range b {
+					m.st.Distributor().NotifyMsg(x)
+				}
+			}
+			if mv := m.view() + " retained[" + m.retained() + "]"; mv != own {
+				return "DIVERGED origin " + own + " vs node fed with the same update and its broadcasts " + mv
+			}
+			return "converged " + own
+		},
+	})
 	// (6c) concurrent local writes to one retained topic while a newer remote copy is merged: what the node keeps
 	// must be what a node fed with its broadcasts keeps
 	remoteRetained := func() []byte {
